@@ -652,6 +652,106 @@ example : ∃ s, State.open 1000 true = .ok s ∧
       = some (.ok (some 4102444799)) :=
   ⟨_, rfl, by decide +kernel⟩
 
+/-! ## a dimension linked to a data object: its label / unit are that object's -/
+
+/-- the attributes a `DimensionLink` writes into the data object it points to: `dim.label = …` / `dim.unit = …`
+on a linked dimension change the linked array's `label` / `unit` (a linked frame's `units`) -/
+def linkWritten : List Mem := [.m_label, .m_unit]
+
+def linkOk : Bool :=
+  linkWritten.all fun m =>
+    match resolve .DimensionLink m with
+    | none => false
+    | some mb => mb.kind == .setter &&
+        mb.outcomes.all (fun o => match o.exit with
+          | .returns => o.touch == .linked
+          | .raises => o.touch == .none) &&
+        mb.outcomes.any (fun o => o.exit == .returns)
+
+/-- (table, path-sensitive) the `label` and `unit` setters of `DimensionLink` run the auto-update idiom on the
+LINKED data object on every returning path, on no raising path, and have a returning path (repaired in /repo:
+they used to change the linked array's label / unit without touching its `updated_at`) -/
+theorem C19_link_setters_touch_linked (m : Mem) (hm : m ∈ linkWritten) :
+    ∃ mb, resolve .DimensionLink m = some mb ∧ mb.kind = .setter ∧
+      (∀ o ∈ mb.outcomes, o.exit = .returns → o.touch = .linked) ∧
+      (∀ o ∈ mb.outcomes, o.exit = .raises → o.touch = .none) ∧
+      (∃ o ∈ mb.outcomes, o.exit = .returns) := by
+  have hall : linkOk = true := by decide +kernel
+  simp only [linkOk, List.all_eq_true] at hall
+  have := hall m hm
+  cases hres : resolve .DimensionLink m with
+  | none => rw [hres] at this; cases this
+  | some mb =>
+    rw [hres] at this
+    simp only [Bool.and_eq_true, beq_iff_eq, List.all_eq_true, List.any_eq_true] at this
+    obtain ⟨⟨hk, hout⟩, hex⟩ := this
+    refine ⟨mb, rfl, hk, ?_, ?_, hex⟩
+    · intro o ho hr
+      have := hout o ho
+      rw [hr] at this
+      simpa using this
+    · intro o ho hr
+      have := hout o ho
+      rw [hr] at this
+      simpa using this
+
+/-- with the switch on, `dim.label = …` / `dim.unit = …` on a dimension linked to the live data object `e`
+(clock within 1970…2100), whichever returning path the setter takes: that object reports the current time as
+its update time, keeps its creation time, and every other entity (the array that owns the dimension included,
+unless it is `e` itself) stays exactly as it was -/
+theorem C19_link_setter_local (s : State) (e : Nat) (ent : Ent) (m : Mem) (mb : Member) (o : Outcome)
+    (he : s.ents[e]? = some ent) (halive : ent.alive = true) (hauto : s.auto = true)
+    (hm : m ∈ linkWritten) (hres : resolve .DimensionLink m = some mb) (ho : o ∈ mb.outcomes)
+    (hret : o.exit = .returns) (hclock : InRange s.clock) :
+    (step s (.call e (some .DimensionLink) m o)).2 = .done ∧
+    (∃ e', (step s (.call e (some .DimensionLink) m o)).1.ents[e]? = some e' ∧
+        readStamp e'.updated = .ok (some s.clock) ∧ e'.created = ent.created) ∧
+    (∀ j, j ≠ e → (step s (.call e (some .DimensionLink) m o)).1.ents[j]? = s.ents[j]?) := by
+  obtain ⟨mb', hres', hkind, htouch, _, _⟩ := C19_link_setters_touch_linked m hm
+  rw [hres] at hres'
+  cases hres'
+  have htouch := htouch o ho hret
+  obtain ⟨v, hv, _⟩ := timeToStr_ok_of_inRange s.clock hclock
+  have hal : aliveAt s e = some ent := by simp [aliveAt, he, halive]
+  have hstep : step s (.call e (some .DimensionLink) m o) =
+      ({ s with ents := setUpdated s.ents e v }, .done) := by
+    simp [step, hal, hres, hkind, hauto, htouch, hv, ho, hret]
+  rw [hstep]
+  refine ⟨rfl, ?_, ?_⟩
+  · refine ⟨{ ent with updated := some v }, by simp [getElem?_setUpdated, he], ?_, rfl⟩
+    exact readStamp_written s.clock hclock v hv
+  · intro j hj
+    simp only [getElem?_setUpdated]
+    cases s.ents[j]? with
+    | none => rfl
+    | some x => simp [Ne.symm hj]
+
+def touchTargetsOk : Bool :=
+  members.all fun mb => mb.outcomes.all fun o =>
+    o.touch == .none || o.touch == .self ||
+    (o.touch == .linked && mb.cls == .DimensionLink && linkWritten.contains mb.mem)
+
+/-- (table over EVERY method and setter of every class of nixio/*.py) the auto-update idiom never acts on
+anything but the object itself — or, in the two link setters above, the linked data object: no method stamps
+its owner, a sibling or any third entity -/
+theorem C19_touch_targets (mb : Member) (hmb : mb ∈ members) (o : Outcome) (ho : o ∈ mb.outcomes) :
+    o.touch = .none ∨ o.touch = .self ∨
+    (o.touch = .linked ∧ mb.cls = .DimensionLink ∧ mb.mem ∈ linkWritten) := by
+  have hall : touchTargetsOk = true := by decide +kernel
+  simp only [touchTargetsOk, List.all_eq_true, Bool.or_eq_true, Bool.and_eq_true, beq_iff_eq,
+    List.contains_iff_mem] at hall
+  rcases hall mb hmb o ho with (h | h) | ⟨⟨h1, h2⟩, h3⟩
+  · exact .inl h
+  · exact .inr (.inl h)
+  · exact .inr (.inr ⟨h1, h2, h3⟩)
+
+example : ∃ s, State.open 1000 true = .ok s ∧
+    (run s [.create .block 0 .good, .create .dataArray 1 .good, .create .dataArray 1 .good, .setClock 2000,
+            .call 3 (some .DimensionLink) .m_label ⟨.returns, .linked⟩]).ents.map
+      (fun e => readStamp e.updated) =
+      [.ok (some 1000), .ok (some 1000), .ok (some 1000), .ok (some 2000)] :=
+  ⟨_, rfl, by decide +kernel⟩
+
 /-! ## creation, read from the source -/
 
 /-- (generated creator shapes) for every entity kind, `C.create_new(...)` — the chain of `create_new` class
